@@ -412,6 +412,14 @@ def generate(rng, run, tier):
             if rng.random() < 0.3:
                 op['twice'] = True
             hist.append(op)
+            if q in ('is_bearable', 'die', 'decor_call', 'th_is_bearable', 'th_die') and rng.random() < 0.25:
+                # the same hint and object under another configuration (in particular another override table)
+                op3 = dict(op, conf=rng.choice([c for c in range(len(QCONFS)) if c != op.get('conf', 0)]))
+                op3.pop('twice', None)
+                if not op3['conf']:
+                    op3.pop('conf')
+                hist.append(op3)
+                nq += 1
             if op.get('pfx') is not None and rng.random() < 0.5:
                 # the same hint, prefix and configuration through another of the door entry points
                 op2 = dict(op, q=rng.choice([x for x in ('is_bearable', 'die', 'th_die') if x != q]), x=gen_obj(rng, nslots))
@@ -466,7 +474,11 @@ DOOR_TEXTS_ROOT = ["'{N}'", "Union['{N}', bytes]", "Optional['{N}']", "'{N}'"]
 DOOR_TEXTS_NESTED = ["list['{N}']", "dict[str, '{N}']", "tuple['{N}', ...]", "list[Optional['{N}']]"]
 ALIASES = {'ALIAS:object': object, 'ALIAS:int': int, 'ALIAS:str': str}
 PREFIXES = ['P: ', 'P: ', 'is_bearable() ', 'die_if_unbearable() ', '']
-QCONFS = [None, {'is_color': False}, {'tower': True}, {'strategy': 'On'}, {'vt': 'valueerror'}]
+QCONFS = [None, {'is_color': False}, {'tower': True}, {'strategy': 'On'}, {'vt': 'valueerror'},
+          # configurations that differ only in their override tables (whatever is cached per hint must be cached per table)
+          {'overrides': [[{'k': 'cls', 'n': 'str'}, {'k': 'union', 'a': [{'k': 'cls', 'n': 'str'}, {'k': 'cls', 'n': 'bytes'}]}]]},
+          {'overrides': [[{'k': 'cls', 'n': 'int'}, {'k': 'union', 'a': [{'k': 'cls', 'n': 'int'}, {'k': 'cls', 'n': 'str'}]}]]},
+          {'overrides': [[{'k': 'cls', 'n': 'str'}, {'k': 'union', 'a': [{'k': 'cls', 'n': 'str'}, {'k': 'cls', 'n': 'int'}]}]]}]
 
 
 def _fresh_env():
